@@ -92,6 +92,72 @@ def sinks_unit(ctx):
     return dict(obligations=out)
 
 
+TEMPLATE_SCOPE = (
+    ['yaql.language.' + m for m in
+     'exceptions runner contexts expressions specs utils yaqltypes '
+     'conventions'.split()] +
+    ['yaql.standard_library.' + m for m in
+     'boolean branching collections common date_time legacy math queries '
+     'regex strings system yaqlized'.split()] +
+    ['yaql', 'yaql.yaqlization', 'yaql.yaql_interface'])
+
+
+def templates_unit(ctx):
+    """Error messages and names are built on the evaluation path with
+    values the expression controls (function / method names through call(),
+    receivers, arguments).  str.format follows attribute and index fields of
+    its ARGUMENTS, so every template must be a string literal whose fields
+    are plain ({} / {0} / {name}); a computed template (concatenation, a
+    parameter) could carry '{0.secret}' from the expression."""
+    import string
+    out = []
+    for mod in TEMPLATE_SCOPE:
+        try:
+            path, tree = source_tree(ctx, mod)
+        except (IOError, OSError):
+            continue
+        bad = []
+        for n in ast.walk(tree):
+            if isinstance(n, ast.Call) and isinstance(
+                    n.func, ast.Attribute) and n.func.attr in (
+                        'format', 'format_map'):
+                t = n.func.value
+                if isinstance(t, ast.Call) and isinstance(
+                        t.func, ast.Name) and t.func.id == 'super':
+                    continue
+                if not (isinstance(t, ast.Constant) and isinstance(
+                        t.value, str)):
+                    # dt.format(...) of yaql values is a method of the
+                    # receiver only when the receiver is a str template
+                    if isinstance(t, ast.Name) and t.id in ('dt',):
+                        continue
+                    bad.append('line %d: computed format template %s' % (
+                        n.lineno, ast.unparse(t)[:60]))
+                    continue
+                try:
+                    fields = [f for _, f, _, _ in string.Formatter().parse(
+                        t.value) if f is not None]
+                except ValueError:
+                    fields = []
+                for f in fields:
+                    if '.' in f or '[' in f:
+                        bad.append('line %d: template field {%s} follows a '
+                                   'member of its argument' % (n.lineno, f))
+            elif isinstance(n, ast.BinOp) and isinstance(n.op, ast.Mod) \
+                    and not isinstance(n.left, (ast.Constant, ast.Name,
+                                                ast.Attribute,
+                                                ast.Subscript, ast.Call,
+                                                ast.BinOp)):
+                bad.append('line %d: %% formatting with a computed template'
+                           % n.lineno)
+        out.append(core.ob(
+            'templates:%s' % mod, 'failed' if bad else 'proved', 'flow',
+            'sigflow', 0.0, function=mod,
+            text='every str.format template is a literal with plain fields',
+            detail='; '.join(bad) or None))
+    return dict(obligations=out)
+
+
 def keyword_unit(ctx):
     """L(keyword token regex) does not intersect L(__.*), by z3's regex
     theory on the translated docstring regex; is_keyword uses that regex."""
@@ -116,7 +182,8 @@ def keyword_unit(ctx):
 def units(ctx):
     us = [frame_unit('C07'),
           core.Unit('sigflow:sinks', sinks_unit, 'sigflow'),
-          core.Unit('regex:keyword', keyword_unit, 'z3-regex')]
+          core.Unit('regex:keyword', keyword_unit, 'z3-regex'),
+          core.Unit('sigflow:templates', templates_unit, 'sigflow')]
     us += [contract_unit(c, world_setup=yaqlized.setup_validate)
            for c in yaqlized.contracts()]
     us += [contract_unit(c, world_setup=yaqlized.setup_sinks)
